@@ -338,3 +338,36 @@ def a_failing_connection_can_not_break_the_log_fan_out(ctx):
                           'RemoteLogHandler.emit - the remaining subscribers do not get the log record and the logging call itself raises', g)
     if n < 2:
         raise AnchorMissing('socket send in send_reply of the interfaces not found')
+
+
+@rule('C20.R7', min_instances=1)
+def level_names_are_looked_up_under_the_key_that_was_tested(ctx):
+    """frappy.logging (check_level and its helpers): a level name is normalised (`key = name.lower()`) and looked up in LOG_LEVELS.
+    Where a membership test guards the lookup, both use the SAME key: `if name in LOG_LEVELS: return LOG_LEVELS[key]` refuses
+    every valid name that is not all lower case - `logging mod "OFF"` then leaves the subscription in place (the connection keeps
+    receiving) and `logging mod "DEBUG"` enables nothing"""
+    m = ctx.m
+    n = 0
+    for q, f in sorted(m.functions.items()):
+        if f.module.name != 'frappy.logging':
+            continue
+        for st in body_walk(f.node):
+            if not isinstance(st, (ast.If, ast.IfExp)):
+                continue
+            for c in [x for x in ast.walk(st.test) if isinstance(x, ast.Compare) and len(x.ops) == 1 and isinstance(x.ops[0], (ast.In, ast.NotIn))
+                      and isinstance(x.comparators[0], ast.Name) and x.comparators[0].id.isupper() and isinstance(x.left, ast.Name)]:
+                table = c.comparators[0].id
+                branch = (st.body if isinstance(c.ops[0], ast.In) else st.orelse)
+                branch = branch if isinstance(branch, list) else [branch]
+                for sub in [x for b in branch for x in ast.walk(b) if isinstance(x, ast.Subscript) and isinstance(x.value, ast.Name) and x.value.id == table
+                            and isinstance(x.slice, ast.Name)] + \
+                           [x for b in branch for x in ast.walk(b) if isinstance(x, ast.Call) and call_attr(x) == 'get' and isinstance(x.func.value, ast.Name)
+                            and x.func.value.id == table and x.args and isinstance(x.args[0], ast.Name)]:
+                    key = sub.slice.id if isinstance(sub, ast.Subscript) else sub.args[0].id
+                    n += 1
+                    ctx.analysed(f)
+                    ctx.check(key == c.left.id, f'{f.qualname}:{table} is read under the key that was tested', c, f'`{src(c)}` guards `{src(sub)}`',
+                              f'`{src(c)}` tests `{c.left.id}` but `{src(sub)}` is read under `{key}`: a name that only becomes a key after normalisation (another case) is '
+                              'refused although the table holds it', f)
+    if not n:
+        ctx.ok('frappy.logging:level table lookups', None, 'no membership test guarding a lookup under another key (lookups are guarded by their own KeyError handler)')
